@@ -363,8 +363,17 @@ func (conn *Conn) read(ctx *Context, async bool) {
 		if err != nil {
 			err = errors.New("reading error body: " + err.Error())
 		}
-		vhook("c.errdone", conn, call, seq, 0)
-		call.done()
+		if conn.readSched != nil {
+			// pipelining: signal through the completion queue so that a failed
+			// call does not overtake earlier calls still waiting on it.
+			conn.readSched.Schedule(func() {
+				vhook("c.errdone", conn, call, seq, 0)
+				call.done()
+			})
+		} else {
+			vhook("c.errdone", conn, call, seq, 0)
+			call.done()
+		}
 		conn.bufferPool.PutBuffer(ctx.buffer)
 		putContext(ctx)
 	default:
